@@ -18,6 +18,7 @@ func (x *Exec) setv(fr *Frame, ins ssa.Value, v Value) {
 }
 
 func (x *Exec) execInstr(fr *Frame, b *ssa.BasicBlock, ins ssa.Instruction, st *State) {
+	fr.cur = ins
 	m := x.m()
 	ixT := IntTy{64, true}
 	switch i := ins.(type) {
